@@ -22,10 +22,11 @@ EXPLANATION = ("GFFPrinter.dump runs on models whose exon coordinates are symbol
 STUBS = ["gene_info for novel-only dumps -> minimal fake; gffutils database -> fake", "GTF text: %d fields are sentinel tokens",
          "src.graph_based_model_construction set/defaultdict -> association-list shims (read ends are symbolic)"]
 ASSUMPTIONS = ["chromosome length is not known to the printer: end <= chromosome length is checked only for reference copies (verbatim)"]
-OUTSIDE = ["merge order of per-chromosome files (C06)", "TranscriptToGeneJoiner", "annotations outside the catalogue"]
+OUTSIDE = ["merge order of per-chromosome files (C06)", "annotations outside the catalogue"]
 
 
 def setup_symbolic():
+    shims.install([common], ["float"])
     shims.install([common, transcript_printer], ["min", "max"])
     shims.install([gbmc], ["set", "defaultdict", "min", "max"])
 
@@ -165,6 +166,43 @@ def h_end_correction(n_reads):
     return fn
 
 
+def h_joiner(n_novel):
+    """TranscriptToGeneJoiner.join_transcripts: novel models (own novel genes, symbolic coordinates and strands) next to one
+    reference gene: after joining, the transcripts attributed to one gene share its strand"""
+    def fn(g):
+        ref_exons = [(1000, 1200), (2000, 2150), (2800, 3000)]
+        gi = Obj(gene_strands={"G1": "+"}, gene_id_map={"REF1": "G1"}, all_isoforms_introns={"REF1": common.junctions_from_blocks(ref_exons)},
+                 get_gene_regions=lambda: {"G1": (1000, 3000)})
+        models = [TranscriptModel("chr1", "+", "REF1", "G1", list(ref_exons), TranscriptModelType.known)]
+        for i in range(n_novel):
+            strand = "+" if g.bool("novel%d_plus" % i) else "-"
+            s_ = g.int("novel%d_start" % i, 500, 3400)
+            if g.bool("novel%d_spliced" % i):
+                a = g.int("novel%d_donor" % i, 500, 3400)
+                b = g.int("novel%d_acceptor" % i, 500, 3400)
+                e_ = g.int("novel%d_end" % i, 500, 3500)
+                g.add(AND(s_ < a, a + 30 < b, b < e_))
+                ex = [(s_, a), (b, e_)]
+            else:
+                e_ = g.int("novel%d_end" % i, 500, 3500)
+                g.add(s_ + 50 <= e_)
+                ex = [(s_, e_)]
+            models.append(TranscriptModel("chr1", strand, "transcript%d.chr1.nnic" % i, "novel_gene_chr1_%d" % (100 + i), ex,
+                                          TranscriptModelType.novel_not_in_catalog))
+        j = call(g, gbmc.TranscriptToGeneJoiner, models, gi)
+        call(g, j.join_transcripts)
+        by_gene = {}
+        for m in models:
+            by_gene.setdefault(m.gene_id, []).append(m)
+        for gid, ms in by_gene.items():
+            g.check(len({m.strand for m in ms}) == 1, "all transcripts attributed to one gene lie on one strand",
+                    detail={"gene": gid, "members": [(m.transcript_id, m.strand) for m in ms]})
+            if gid == "G1":
+                g.check(all(m.strand == "+" for m in ms), "transcripts joined to a reference gene lie on the reference gene's strand")
+        g.check(any(m.transcript_id == "REF1" and m.gene_id == "G1" for m in models), "a reference transcript keeps its reference gene")
+    return fn
+
+
 class EmptyDB:
     def region(self, **kw):
         return iter([])
@@ -194,6 +232,11 @@ def instances(tier, seed):
     for n in ((1, 2) if q else (1, 2, 3)):
         out.append(Instance("end_correction[%d]" % n, h_end_correction(n), ["src.graph_based_model_construction:GraphBasedModelConstructor.correct_novel_transcript_ends"],
                             "%d supporting reads with symbolic ends" % n, weight=30 ** n, budget_s=1200))
+    for n in ((1, 2) if q else (1, 2, 3)):
+        out.append(Instance("gene_joiner[novel=%d]" % n, h_joiner(n), ["src.graph_based_model_construction:TranscriptToGeneJoiner.join_transcripts",
+                                                                       "src.graph_based_model_construction:TranscriptToGeneJoiner.count_score",
+                                                                       "src.graph_based_model_construction:TranscriptToGeneJoiner.merge_genes", "src.common:jaccard_similarity"],
+                            "%d novel models with symbolic coordinates / strand / spliced-or-not next to one reference gene" % n, weight=200 * 5 ** n, budget_s=1800))
     out.append(Instance("extended_without_genes", h_extended_no_genes, [T + "create_extended_storage", "src.gene_info:GeneInfo.from_region"],
                         "1-3 novel models on a chromosome without genes", weight=5))
     return out
